@@ -16,7 +16,7 @@ INST_MAX_NS = (IMAX + 1) * NPD - 1
 
 META = {
     "property": "C03",
-    "proof_modules": ["PyodaProofs.C03"],
+    "proof_modules": ["PyodaProofs.C03", "PyodaProofs.GenAgreeC03"],
     "drivers": ["drv_elapsed"],
     "theorems": [
         "Pyoda.C03.fromUnits_exact", "Pyoda.C03.fromUnits_raises_iff", "Pyoda.C03.fromNanoseconds_exact",
@@ -28,9 +28,84 @@ META = {
         "Pyoda.C03.toUnixSeconds_floor", "Pyoda.C03.fromUnixSeconds_toUnixSeconds", "Pyoda.C03.instant_plus_exact",
         "Pyoda.C03.instant_plus_raises_iff", "Pyoda.C03.instant_minus_exact", "Pyoda.C03.safePlus_spec",
         "Pyoda.C03.offset_add_exact", "Pyoda.C03.offset_fromUnit_trunc",
+        # agreement of the definitions generated from the Python source (tools/py2lean.py) with the model
+        "Pyoda.GenAgree.C03.gen_ticksToDaysAndTickOfDay_eq", "Pyoda.GenAgree.C03.gen_daysAndTickOfDayToTicks_eq",
+        "Pyoda.GenAgree.C03.gen_boundedDaysAndTickOfDayToTicks_eq", "Pyoda.GenAgree.C03.gen_Duration_ctor_eq",
+        "Pyoda.GenAgree.C03.gen_Duration_fromUnits_eq", "Pyoda.GenAgree.C03.gen_Duration_ctorUnchecked_eq",
+        "Pyoda.GenAgree.C03.gen_Duration_floorDays_eq", "Pyoda.GenAgree.C03.gen_Duration_nanosecondOfFloorDay_eq",
+        "Pyoda.GenAgree.C03.gen_Duration_daysAcc_eq", "Pyoda.GenAgree.C03.gen_Duration_nanosecondOfDay_eq",
+        "Pyoda.GenAgree.C03.gen_Duration_hours_eq", "Pyoda.GenAgree.C03.gen_Duration_minutes_eq",
+        "Pyoda.GenAgree.C03.gen_Duration_seconds_eq", "Pyoda.GenAgree.C03.gen_Duration_milliseconds_eq",
+        "Pyoda.GenAgree.C03.gen_Duration_microseconds_eq", "Pyoda.GenAgree.C03.gen_Duration_subsecondTicks_eq",
+        "Pyoda.GenAgree.C03.gen_Duration_subsecondNanoseconds_eq",
+        "Pyoda.GenAgree.C03.gen_Duration_bclCompatibleTicks_eq",
+        "Pyoda.GenAgree.C03.gen_Duration_totalNanoseconds_eq", "Pyoda.GenAgree.C03.gen_Duration_toNanos_eq",
+        "Pyoda.GenAgree.C03.gen_Duration_plusSmallNanos_eq", "Pyoda.GenAgree.C03.gen_Duration_minusSmallNanos_eq",
+        "Pyoda.GenAgree.C03.gen_Duration_add_eq", "Pyoda.GenAgree.C03.gen_Duration_sub_eq",
+        "Pyoda.GenAgree.C03.gen_Duration_neg_eq", "Pyoda.GenAgree.C03.gen_Duration_fromNanoseconds_eq",
+        "Pyoda.GenAgree.C03.gen_Duration_mulInt_eq", "Pyoda.GenAgree.C03.gen_Duration_rmulInt_eq",
+        "Pyoda.GenAgree.C03.gen_Duration_divInt_eq", "Pyoda.GenAgree.C03.gen_Duration_beq_eq",
+        "Pyoda.GenAgree.C03.gen_Duration_bne_eq", "Pyoda.GenAgree.C03.gen_Duration_lt_eq",
+        "Pyoda.GenAgree.C03.gen_Duration_gt_eq", "Pyoda.GenAgree.C03.gen_Duration_le_eq",
+        "Pyoda.GenAgree.C03.gen_Duration_ge_eq", "Pyoda.GenAgree.C03.gen_Duration_compareTo_eq",
+        "Pyoda.GenAgree.C03.gen_Duration_fromDays_eq", "Pyoda.GenAgree.C03.gen_Duration_fromHours_eq",
+        "Pyoda.GenAgree.C03.gen_Duration_fromMinutes_eq", "Pyoda.GenAgree.C03.gen_Duration_fromSeconds_eq",
+        "Pyoda.GenAgree.C03.gen_Duration_fromMilliseconds_eq", "Pyoda.GenAgree.C03.gen_Duration_fromMicroseconds_eq",
+        "Pyoda.GenAgree.C03.gen_Duration_fromTicks_eq", "Pyoda.GenAgree.C03.gen_Duration_addStatic_eq",
+        "Pyoda.GenAgree.C03.gen_Duration_plus_eq", "Pyoda.GenAgree.C03.gen_Duration_subtractStatic_eq",
+        "Pyoda.GenAgree.C03.gen_Duration_minus_eq", "Pyoda.GenAgree.C03.gen_Duration_negateStatic_eq",
+        "Pyoda.GenAgree.C03.gen_Duration_equals_eq", "Pyoda.GenAgree.C03.gen_Offset_ctor_eq",
+        "Pyoda.GenAgree.C03.gen_Offset_secondsAcc_eq", "Pyoda.GenAgree.C03.gen_Offset_milliseconds_eq",
+        "Pyoda.GenAgree.C03.gen_Offset_ticks_eq", "Pyoda.GenAgree.C03.gen_Offset_nanoseconds_eq",
+        "Pyoda.GenAgree.C03.gen_Offset_neg_eq", "Pyoda.GenAgree.C03.gen_Offset_fromSeconds_eq",
+        "Pyoda.GenAgree.C03.gen_Offset_add_eq", "Pyoda.GenAgree.C03.gen_Offset_sub_eq",
+        "Pyoda.GenAgree.C03.gen_Offset_compareTo_eq", "Pyoda.GenAgree.C03.gen_Offset_beq_eq",
+        "Pyoda.GenAgree.C03.gen_Offset_bne_eq", "Pyoda.GenAgree.C03.gen_Offset_lt_eq",
+        "Pyoda.GenAgree.C03.gen_Offset_le_eq", "Pyoda.GenAgree.C03.gen_Offset_gt_eq",
+        "Pyoda.GenAgree.C03.gen_Offset_ge_eq", "Pyoda.GenAgree.C03.gen_Offset_fromMilliseconds_eq",
+        "Pyoda.GenAgree.C03.gen_Offset_fromTicks_eq", "Pyoda.GenAgree.C03.gen_Offset_fromNanoseconds_eq",
+        "Pyoda.GenAgree.C03.gen_Offset_fromHours_eq", "Pyoda.GenAgree.C03.gen_Offset_fromHoursAndMinutes_eq",
+        "Pyoda.GenAgree.C03.gen_Offset_plus_eq", "Pyoda.GenAgree.C03.gen_Offset_minus_eq",
+        "Pyoda.GenAgree.C03.gen_Offset_negateStatic_eq", "Pyoda.GenAgree.C03.gen_Instant_ctor_eq",
+        "Pyoda.GenAgree.C03.gen_Instant_ofDuration_eq", "Pyoda.GenAgree.C03.gen_Instant_ofDaysInvalid_eq",
+        "Pyoda.GenAgree.C03.gen_Instant_beforeMinValue_eq", "Pyoda.GenAgree.C03.gen_Instant_afterMaxValue_eq",
+        "Pyoda.GenAgree.C03.gen_Instant_timeSinceEpoch_eq", "Pyoda.GenAgree.C03.gen_Instant_daysSinceEpoch_eq",
+        "Pyoda.GenAgree.C03.gen_Instant_nanosecondOfDay_eq", "Pyoda.GenAgree.C03.gen_Instant_isValid_eq",
+        "Pyoda.GenAgree.C03.gen_Instant_fromTrusted_eq", "Pyoda.GenAgree.C03.gen_Instant_fromUntrusted_eq",
+        "Pyoda.GenAgree.C03.gen_Instant_beq_eq", "Pyoda.GenAgree.C03.gen_Instant_bne_eq",
+        "Pyoda.GenAgree.C03.gen_Instant_lt_eq", "Pyoda.GenAgree.C03.gen_Instant_le_eq",
+        "Pyoda.GenAgree.C03.gen_Instant_gt_eq", "Pyoda.GenAgree.C03.gen_Instant_ge_eq",
+        "Pyoda.GenAgree.C03.gen_Instant_compareTo_eq", "Pyoda.GenAgree.C03.gen_Instant_plus_eq",
+        "Pyoda.GenAgree.C03.gen_Instant_minusDur_eq", "Pyoda.GenAgree.C03.gen_Instant_minus_eq",
+        "Pyoda.GenAgree.C03.gen_Instant_plusMethod_eq", "Pyoda.GenAgree.C03.gen_Instant_fromUnixTicks_eq",
+        "Pyoda.GenAgree.C03.gen_Instant_fromUnixMilliseconds_eq",
+        "Pyoda.GenAgree.C03.gen_Instant_fromUnixSeconds_eq", "Pyoda.GenAgree.C03.gen_Instant_toUnixTicks_eq",
+        "Pyoda.GenAgree.C03.gen_Instant_toUnixSeconds_eq", "Pyoda.GenAgree.C03.gen_Instant_toUnixMilliseconds_eq",
+        "Pyoda.GenAgree.C03.gen_Instant_plusTicks_eq", "Pyoda.GenAgree.C03.gen_Instant_plusNanoseconds_eq",
+        "Pyoda.GenAgree.C03.gen_LocalInstant_ofDaysInvalid_eq", "Pyoda.GenAgree.C03.gen_LocalInstant_ofDuration_eq",
+        "Pyoda.GenAgree.C03.gen_LocalInstant_ofDays_eq", "Pyoda.GenAgree.C03.gen_LocalInstant_beforeMinValue_eq",
+        "Pyoda.GenAgree.C03.gen_LocalInstant_afterMaxValue_eq",
+        "Pyoda.GenAgree.C03.gen_LocalInstant_timeSinceLocalEpoch_eq",
+        "Pyoda.GenAgree.C03.gen_LocalInstant_daysSinceEpoch_eq",
+        "Pyoda.GenAgree.C03.gen_LocalInstant_nanosecondOfDay_eq", "Pyoda.GenAgree.C03.gen_LocalInstant_isValid_eq",
+        "Pyoda.GenAgree.C03.gen_LocalInstant_minusZeroOffset_eq", "Pyoda.GenAgree.C03.gen_Instant_plusOffset_eq",
+        "Pyoda.GenAgree.C03.gen_LocalInstant_minus_eq", "Pyoda.GenAgree.C03.gen_Instant_safePlus_eq",
+        "Pyoda.GenAgree.C03.gen_LocalInstant_safeMinus_eq", "Pyoda.GenAgree.C03.gen_LocalInstant_beq_eq",
+        "Pyoda.GenAgree.C03.gen_LocalInstant_lt_eq",
     ],
     "trusted_base": [
         "CPython int arithmetic; decimal division exact for operands below 10^27 (sampled by suite prelude.tdiv)",
+        "translator tools/py2lean.py (second tie, besides the sampled correspondence): every member of Duration, Instant, _LocalInstant, Offset and "
+        "_TickArithmetic listed under C03 in tools/py2lean_targets.py is re-translated from the current Python source on each run into "
+        "lean/PyodaGen/C03.lean and proved equal to the hand-written model for all inputs (PyodaProofs/GenAgreeC03.lean). Trusted there: "
+        "Python int = Lean Int; // and % emitted as Int.fdiv/Int.fmod and only for non-zero constant divisors (for the positive divisors "
+        "used they equal Lean / and %); >> by a constant = Int.shiftRight; raising calls bound left-to-right in Except PyExc, all other "
+        "expressions pure so their evaluation order is irrelevant; isinstance / `is None` tests decided from the declared parameter types "
+        "(int arguments only - float and Decimal paths are not translated; classes are final); if-statements by tail duplication; "
+        "object construction `self = super().__new__(cls)` + field assignments = structure literal; name mangling and property/classmethod "
+        "dispatch resolved by the target list; hand-mapped helpers _towards_zero_division -> pyTdiv, _csharp_modulo -> csharpMod, "
+        "_Preconditions._check_argument_range -> checkRange (these three stay tied by correspondence only); exception classes mapped to PyExc by name; "
+        "integer constants resolved by AST evaluation of their defining expressions (not by import)",
     ],
     "partial": ["float-valued accessors (total_*), Duration*float, Duration/float, Duration/Duration, julian dates are outside the theorems"],
     "rule": "ops are generated as k*unit+delta at zero, sign changes, day boundaries and range edges plus seeded random; distinct = distinct op line; non-trivial = every op (all exercise arithmetic or a range check)",
